@@ -513,6 +513,11 @@ func (t *Table) InsertColumn(position int, data []string, width int) error {
 		return fmt.Errorf("数据行数(%d)超过表格行数(%d)", len(data), len(t.Rows))
 	}
 
+	// 各行单元格数不一致（存在合并单元格或不规则行）时按物理索引操作会越界，提前拒绝
+	if err := t.checkUniformColumns(colCount); err != nil {
+		return err
+	}
+
 	// 更新表格网格
 	newGridCol := TableGridCol{
 		W: fmt.Sprintf("%d", width),
@@ -567,6 +572,30 @@ func (t *Table) InsertColumn(position int, data []string, width int) error {
 	return nil
 }
 
+// checkUniformColumns 校验列操作的前提：每一行的单元格数都等于 colCount，
+// 并确保表格网格存在且与列数一致（外部文档的表格可能没有 w:tblGrid）。
+func (t *Table) checkUniformColumns(colCount int) error {
+	for i := range t.Rows {
+		if len(t.Rows[i].Cells) != colCount {
+			return fmt.Errorf("第%d行有%d个单元格，与首行的%d列不一致，无法执行列操作", i, len(t.Rows[i].Cells), colCount)
+		}
+	}
+	if t.Grid == nil || len(t.Grid.Cols) == 0 {
+		// 没有网格定义时，只有首行不含跨列单元格才能由单元格数推出网格
+		for j := range t.Rows[0].Cells {
+			if p := t.Rows[0].Cells[j].Properties; p != nil && p.GridSpan != nil {
+				return fmt.Errorf("表格没有网格定义且首行含合并单元格，无法执行列操作")
+			}
+		}
+		t.Grid = &TableGrid{Cols: make([]TableGridCol, colCount)}
+		return nil
+	}
+	if len(t.Grid.Cols) != colCount {
+		return fmt.Errorf("表格网格有%d列，与首行的%d列不一致，无法执行列操作", len(t.Grid.Cols), colCount)
+	}
+	return nil
+}
+
 // AppendColumn 在表格末尾添加列
 func (t *Table) AppendColumn(data []string, width int) error {
 	colCount := 0
@@ -589,6 +618,10 @@ func (t *Table) DeleteColumn(colIndex int) error {
 
 	if colCount <= 1 {
 		return fmt.Errorf("表格至少需要保留一列")
+	}
+
+	if err := t.checkUniformColumns(colCount); err != nil {
+		return err
 	}
 
 	// 删除网格列
@@ -617,6 +650,10 @@ func (t *Table) DeleteColumns(startIndex, endIndex int) error {
 	deleteCount := endIndex - startIndex + 1
 	if colCount-deleteCount < 1 {
 		return fmt.Errorf("删除后表格至少需要保留一列")
+	}
+
+	if err := t.checkUniformColumns(colCount); err != nil {
+		return err
 	}
 
 	// 删除网格列范围
